@@ -25,7 +25,7 @@ def history(draw):
     slopes = [draw(slope_st) for _ in range(n)]
     ops = []
     for _ in range(draw(st.integers(0, 6))):
-        kind = draw(st.sampled_from(['ins-between', 'ins-equal', 'ins-above', 'ins-free', 'ins-above',
+        kind = draw(st.sampled_from(['ins-between', 'ins-equal', 'ins-equal', 'ins-above', 'ins-free', 'ins-above',
                                      'pop', 'pop', 'pop0', 'reload-dict', 'reload-json']))
         if kind.startswith('ins'):
             ops.append({'op': kind, 'j': draw(st.integers(0, 11)), 'u': draw(unit),
@@ -185,6 +185,27 @@ def check_history(case, ctx):
                 return
             ctx.label('reload')
         if not _check_state(ctx, obj, model, case, step):
+            return
+    # every history ends with both reload routes (deterministic, cheap)
+    last = len(case['ops']) + 1
+    o2 = PiecewiseCovEffect.from_dict(obj.to_dict())
+    if not _check_state(ctx, o2, model, case, last):
+        return
+    if [float(v) for v in o2.intervals] != [float(v) for v in obj.intervals] or \
+            [float(v) for v in o2.slopes] != [float(v) for v in obj.slopes]:
+        ctx.fail('C17.history/reload-reordered', 'dict reload %r/%r vs %r/%r' % (
+            o2.intervals, o2.slopes, obj.intervals, obj.slopes))
+        return
+    o3 = json.loads(json.dumps(obj, cls=pmuttEncoder), object_hook=json_to_pmutt)
+    if not isinstance(o3, PiecewiseCovEffect):
+        ctx.fail('C17.history/reload-class', 'json reload gave %s' % type(o3).__name__)
+        return
+    xs = [0.05 * k for k in range(0, 31)]
+    for x in xs:
+        if o3.get_UoRT(x=x, T=case['T']) != obj.get_UoRT(x=x, T=case['T']):
+            ctx.fail('C17.history/reload-changed-function', 'x=%r: %r vs %r; %r/%r vs %r/%r' % (
+                x, o3.get_UoRT(x=x, T=case['T']), obj.get_UoRT(x=x, T=case['T']),
+                o3.intervals, o3.slopes, obj.intervals, obj.slopes))
             return
     ctx.nontrivial(n_above >= 1 and n_pop >= 1)
 
